@@ -236,12 +236,15 @@ func partA(c *ev.Ctx) {
 		{"ext_declared", []la{{"+1", func(s *leafSpec) { s.ExtDecl = "+1" }}, {"-1", func(s *leafSpec) { s.ExtDecl = "-1" }}, {"65535", func(s *leafSpec) { s.ExtDecl = "max" }}}},
 		{"trailing", []la{{"1 byte", func(s *leafSpec) { s.Trailing = []byte{0} }}}},
 	}
-	ld := ev.Pick(c, 3, 4)
+	ld := ev.Pick(c, 3, 5)
 	bt = newBatch(c, "A4 MerkleTreeLeaf bytes")
-	enumDev(lbase, leafFields, ld, func(s leafSpec, note string, _ int) {
+	enumDev(lbase, leafFields, ld, func(s leafSpec, note string, depth int) {
+		if len(s.V.Cert) >= 1<<20 && depth > 2 {
+			return // 16 MiB entries only alone and in pairs
+		}
 		bt.add(Case{Kind: "leaf-bytes", Bytes: encLeaf(s), Note: note})
 	})
-	c.Set("A4_leaf_bytes", fmt.Sprintf("10 fields of the harness encoder, d<=%d: %d cases", ld, bt.done()))
+	c.Set("A4_leaf_bytes", fmt.Sprintf("10 fields of the harness encoder, d<=%d (thorough: 2^24-1-byte entries at d<=2): %d cases", ld, bt.done()))
 
 	// A5. chain arrays: <=3 certificates of lengths {0,1,300}, outer length
 	// exact/+1/-1, optional trailing byte, last element declared +1
@@ -322,7 +325,7 @@ func partB(c *ev.Ctx) {
 			{"2^24-1", func(x *Case) { x.TBS = big1 }}, {"2^24", func(x *Case) { x.TBS = big2 }}}},
 		{"sct.log_id", []ca{{"zeros", func(x *Case) { x.LogID = fill(32, 0) }}}},
 	}
-	d := ev.Pick(c, 3, 4)
+	d := ev.Pick(c, 3, 5)
 	heavyDepth := ev.Pick(c, 1, 2) // 16 MiB entries only in combinations of this many deviations
 	bt := newBatch(c, "B SCT signature inputs")
 	enumDev(sctInputBase(), fields, d, func(v Case, note string, depth int) {
@@ -375,7 +378,7 @@ func partC(c *ev.Ctx) {
 			g.Sig = stdSign(ks, 4, input)
 			name := b.Note + " signed by " + ks
 
-			singles, menu := deviations(&g, input, all)
+			singles, menu := deviations(&g, input, true) // every byte value at every signature offset in both tiers
 			bt := newBatch(c, "C "+name)
 			add := func(note string, fs ...func(*Case)) {
 				v := g
@@ -389,20 +392,30 @@ func partC(c *ev.Ctx) {
 			for _, a := range singles {
 				add(a.name, a.f)
 			}
-			// d = 2 over the reduced menu (different fields only)
-			for i := range menu {
-				for j := i + 1; j < len(menu); j++ {
-					if menu[i].fld == menu[j].fld {
+			// d = 2 over the reduced menu (different fields only); thorough: every
+			// single deviation combined with every menu entry of another field
+			first := menu
+			if all {
+				first = singles
+			}
+			inMenu := map[string]bool{}
+			for _, m := range menu {
+				inMenu[m.name] = true
+			}
+			for i := range first {
+				for j := range menu {
+					if first[i].fld == menu[j].fld {
 						continue
 					}
-					add(menu[i].name+" + "+menu[j].name, menu[i].f, menu[j].f)
+					if inMenu[first[i].name] && first[i].name >= menu[j].name {
+						continue // unordered pair of two menu entries: once
+					}
+					add(first[i].name+" + "+menu[j].name, first[i].f, menu[j].f)
 				}
 			}
 			// hash id x signature algorithm id
-			idsH, idsA := []int{0, 1, 2, 3, 4, 5, 6, 7, 128, 255}, []int{0, 1, 2, 3, 4, 128, 255}
-			if all {
-				idsH, idsA = seq(256), seq(256)
-			}
+			// (the full 256 x 256 product is cheap: most pairs are refused before any arithmetic)
+			idsH, idsA := seq(256), seq(256)
 			for _, h := range idsH {
 				for _, a := range idsA {
 					h, a := byte(h), byte(a)
@@ -434,7 +447,7 @@ func partC(c *ev.Ctx) {
 						r.run(&v)
 					}
 					if i < n {
-						for _, val := range substitutions(wire[i], all) {
+						for _, val := range substitutions(wire[i], true) {
 							m := append([]byte(nil), wire...)
 							m[i] = val
 							mk(m, fmt.Sprintf("offset %d := %02x", i, val))
@@ -447,7 +460,7 @@ func partC(c *ev.Ctx) {
 			}
 		}
 	}
-	c.Set("C_verifier_cases", fmt.Sprintf("3 baselines x 2 signing keys: all single deviations + pairs over a reduced menu + id products + cross-hash signatures + mutated wire form: %d cases", total))
+	c.Set("C_verifier_cases", fmt.Sprintf("3 baselines x 2 signing keys: all single deviations + pairs over a reduced menu (thorough: every single deviation x the menu) + id products + cross-hash signatures + mutated wire form: %d cases", total))
 }
 
 func seq(n int) []int {
@@ -476,7 +489,7 @@ func deviations(g *Case, input []byte, all bool) (singles, menu []dev) {
 		}
 		if n > 0 {
 			m(fld, "flip "+fld+" first bit", func(x *Case) { p := get(x); *p = flipBit(*p, 0) })
-			m(fld, "flip "+fld+" last bit", func(x *Case) { p := get(x); *p = flipBit(*p, n-1) })
+			m(fld, "flip "+fld+" last bit", func(x *Case) { p := get(x); *p = flipBit(*p, len(*p)*8-1) })
 		}
 	}
 	for bit := 0; bit < 64; bit++ {
